@@ -57,18 +57,18 @@ theorem partial_on_prefix (h : Head) (hw : h.wf) (N : Nat) (hs : h.fields.length
       unfold keepNonEmpty at h2
       simp [h2, keepNonEmpty]
 
-/-- `Call<RecvResponse>::try_response` with the partial-redirect fallback in place: for a head that is
-    not (a 3xx carrying a `Location` field), every strict prefix yields `None` and changes nothing. -/
-theorem call_prefix_with_fallback (c : CallSt) (h : Head) (hw : h.wf) (hs : h.fields.length ≤ 128)
+/-- the parse step with the fallback present: on every strict prefix of a head that is not (a 3xx carrying
+    a `Location` field) it asks for more data -/
+theorem fallback_prefix (h : Head) (hw : h.wf) (hs : h.fields.length ≤ 128)
     (hc : 100 ≤ h.codeVal) (hnames : ∀ f ∈ h.fields, f.name.length ≤ 65535)
     (hnot : ¬ (300 ≤ h.codeVal ∧ h.codeVal ≤ 399) ∨
             (fieldsOf (h.fields.map Field.pair)).any (fun x => x.name == "location") = false)
     (n : Nat) (hn : n < h.enc.length) :
-    callTryResponse true c (h.enc.take n) = (c, .ok none) := by
+    parseWithFallback true (h.enc.take n) = .ok none := by
   obtain ⟨st, hst⟩ := resp_prefix h hw 128 hs n hn
   have hfull : tryParseResponse 128 (h.enc.take n) = .ok none := by
     unfold tryParseResponse; rw [hst]
-  unfold callTryResponse
+  unfold parseWithFallback
   rw [hfull]
   simp only [Bool.not_true, Bool.false_eq_true, if_false]
   rcases partial_on_prefix h hw 128 hs hc hnames n hn with hp | ⟨k0, t, hf, hp⟩
@@ -92,3 +92,14 @@ theorem call_prefix_with_fallback (c : CallSt) (h : Head) (hw : h.wf) (hs : h.fi
     · have : ¬ (300 ≤ h.codeVal ∧ h.codeVal ≤ 399 ∧ (fieldsOf (keepNonEmpty k0)).any (fun x => x.name == "location") = true) := by
         intro hh; have := hany hh.2.2; rw [hloc] at this; exact absurd this (by simp)
       rw [if_neg (by simpa using this)]
+
+/-- `Call<RecvResponse>::try_response` with the partial-redirect fallback in place: for a head that is
+    not (a 3xx carrying a `Location` field), every strict prefix yields `None` and changes nothing. -/
+theorem call_prefix_with_fallback (c : CallSt) (h : Head) (hw : h.wf) (hs : h.fields.length ≤ 128)
+    (hc : 100 ≤ h.codeVal) (hnames : ∀ f ∈ h.fields, f.name.length ≤ 65535)
+    (hnot : ¬ (300 ≤ h.codeVal ∧ h.codeVal ≤ 399) ∨
+            (fieldsOf (h.fields.map Field.pair)).any (fun x => x.name == "location") = false)
+    (n : Nat) (hn : n < h.enc.length) :
+    callTryResponse true c (h.enc.take n) = (c, .ok none) := by
+  unfold callTryResponse
+  rw [fallback_prefix h hw hs hc hnames hnot n hn]
